@@ -83,7 +83,7 @@ def run(chk):
         evals = 0
         for cls in sorted(vectors, key=sweep.qualname):
             name = sweep.qualname(cls)
-            for v in vectors[cls]:
+            for v in list(vectors[cls]) + rt.extra_vectors(name, rng):
                 evals += 1
                 for pred, detail in rt.roundtrip_failures(cls, v):
                     if pred in C01_PREDICATES:
@@ -93,7 +93,7 @@ def run(chk):
 
     def search(_br):
         for name, v, pred, detail in sweep_originals():
-            key = '%s/%s/orig' % (family(name), pred)
+            key = rt.finding_key(family(name), name, pred, 'orig', v)
             if chk.known(key) is None:
                 return [('%s: %s' % (name, detail), {'class': name, 'input': v.hex(), 'predicate': pred}, key, True)]
         return []
@@ -131,7 +131,7 @@ def run(chk):
         chk.violation('model runner does not build: %s' % br.failed_file, {'error': br.error}, None, False)
     seen = set()
     for name, v, pred, detail in sweep_originals():
-        key = '%s/%s/orig' % (family(name), pred)
+        key = rt.finding_key(family(name), name, pred, 'orig', v)
         if key in seen:
             continue
         seen.add(key)
